@@ -19,10 +19,13 @@ func newCommitter(batchSemaphore semaphore.ResourceSemaphore[db.Batch]) *committ
 }
 
 func (c *committer) Run(_ int, batch db.Batch, _ chan<- struct{}) error {
+	// The batch is done with whether or not the write succeeded: hand its slot back, or an
+	// ingestor waiting for a fresh batch blocks forever after a failed write.
+	defer c.semaphore.Put()
+
 	if err := batch.Write(); err != nil {
 		return err
 	}
-	c.semaphore.Put()
 	return nil
 }
 
